@@ -73,6 +73,9 @@ def step (s : St) (kind : String) (args impl : List String) : Option (St × Step
   | "op", ["remove", l] =>
     let has := s.m.nodes.any (·.label == l)
     some ({ s with m := removeNode s.m l }, { obs := ["ok"], branch := if has then "remove.present" else "remove.absent" })
+  | "op", ["conc", _, _] =>
+    -- concurrent read-only queries compared with a sequentially used twin by the harness (propfail lines)
+    some (s, { obs := ["ok"], branch := "conc" })
   | "op", ["nodes"] =>
     -- the slice order of rh.Nodes is internal: any arrangement of the same multiset is accepted and followed
     match impl with
